@@ -256,6 +256,101 @@ func runSwap(tracePath string, rounds, lookers int) {
 	fmt.Printf("swap events=%d lookups=%d\n", tr.Len(), lid)
 }
 
+// runMSwap: the same question one level up: lookups through the cluster manager (GetClusterSnapshot by name, what the
+// proxy does per request) concurrent with the manager's update API - host replacement, append, removal, and a
+// cluster update that replaces the cluster object and inherits its hosts. Every publication is visible at once
+// (the operations used publish into the cluster that is already in the manager's table, or publish the same set).
+func runMSwap(tracePath string, rounds, lookers int) {
+	tr := vh.NewTrace(tracePath)
+	defer tr.Close()
+	var curName atomic.Value
+	vh.Sink(func(ev string, kv []interface{}) {
+		n, _ := curName.Load().(string)
+		c, ok := kv[0].(types.Cluster)
+		if n == "" || !ok || c.Snapshot() == nil || c.Snapshot().ClusterInfo().Name() != n {
+			return
+		}
+		switch ev {
+		case "cluster.publish.begin":
+			tr.Emit(vh.Ev{"ev": "pbegin", "hosts": hsNames(kv[1].(types.HostSet))})
+		case "cluster.publish.end":
+			tr.Emit(vh.Ev{"ev": "pend"})
+		}
+	})
+	defer vh.Sink(nil)
+	cluster.GetClusterMngAdapterInstance().Destroy()
+	cluster.NewClusterManagerSingleton(nil, nil, nil)
+	ad := cluster.GetClusterMngAdapterInstance()
+	hostCfg := func(k string) v2.Host {
+		return v2.Host{HostConfig: v2.HostConfig{Address: addrs[k], Hostname: k, Weight: weights[k]}}
+	}
+	var lid, budget int64
+	perRound := 12
+	for _, pol := range policies {
+		cname := fmt.Sprintf("c05m-%s", pol)
+		ccfg := v2.Cluster{Name: cname, ClusterType: v2.SIMPLE_CLUSTER, LbType: v2.LbType(pol)}
+		tr.Emit(vh.Ev{"ev": "new", "policy": string(pol)})
+		curName.Store(cname)
+		vh.Must(ad.TriggerClusterAddOrUpdate(ccfg), "add cluster")
+		stop := make(chan struct{})
+		var wg sync.WaitGroup
+		for g := 0; g < lookers; g++ {
+			wg.Add(1)
+			go func(g int) {
+				defer wg.Done()
+				rng := rand.New(rand.NewSource(vh.Seed()*100 + int64(g)))
+				for {
+					select {
+					case <-stop:
+						return
+					default:
+					}
+					if atomic.AddInt64(&budget, -1) < 0 {
+						runtime.Gosched()
+						continue
+					}
+					id := atomic.AddInt64(&lid, 1)
+					tr.Emit(vh.Ev{"ev": "lstart", "id": id})
+					snap := ad.GetClusterSnapshot(context.Background(), cname)
+					if snap == nil {
+						tr.Emit(vh.Ev{"ev": "lend", "id": id, "r": "no-cluster", "hs": []string{}})
+						continue
+					}
+					h := snap.LoadBalancer().ChooseHost(newCtx(rng.Uint64()))
+					tr.Emit(vh.Ev{"ev": "lend", "id": id, "r": name(h), "hs": hsNames(snap.HostSet())})
+				}
+			}(g)
+		}
+		// operation script over the manager API; the health flags of an address are per address, all stay healthy
+		info0 := ad.GetClusterSnapshot(context.Background(), cname).ClusterInfo()
+		for k := range addrs {
+			setHealth(cluster.NewSimpleHost(hostCfg(k), info0), true)
+		}
+		ops := []func(){
+			func() { ad.TriggerClusterHostUpdate(cname, []v2.Host{hostCfg("h1"), hostCfg("h2")}) },
+			func() { ad.TriggerHostAppend(cname, []v2.Host{hostCfg("h3")}) },
+			func() { ad.TriggerClusterAddOrUpdate(ccfg) }, // new cluster object, hosts inherited
+			func() { ad.TriggerHostDel(cname, []string{addrs["h1"]}) },
+			func() { ad.TriggerClusterHostUpdate(cname, []v2.Host{hostCfg("h4")}) },
+			func() { ad.TriggerClusterAddOrUpdate(ccfg) },
+			func() { ad.TriggerHostAppend(cname, []v2.Host{hostCfg("h1"), hostCfg("h2")}) },
+			func() { ad.TriggerHostDel(cname, []string{addrs["h4"], addrs["h2"]}) },
+		}
+		for r := 0; r < rounds; r++ {
+			atomic.StoreInt64(&budget, int64(perRound))
+			ops[r%len(ops)]()
+			for i := 0; i < 50 && atomic.LoadInt64(&budget) > int64(perRound)/2; i++ {
+				runtime.Gosched()
+			}
+		}
+		close(stop)
+		wg.Wait()
+		curName.Store("")
+		ad.TriggerClusterDel(cname)
+	}
+	fmt.Printf("mswap events=%d lookups=%d\n", tr.Len(), lid)
+}
+
 func main() {
 	mode := flag.String("mode", "hist", "hist|swap")
 	cases := flag.String("cases", "", "cases file")
@@ -269,6 +364,8 @@ func main() {
 	switch *mode {
 	case "hist":
 		runHist(*cases, *out, *reps)
+	case "mswap":
+		runMSwap(*out, *reps, *lookers)
 	case "swap":
 		runSwap(*out, *reps, *lookers)
 	}
